@@ -28,6 +28,7 @@ import (
 	"path/filepath"
 	"strings"
 
+	"verifharness/internal/kvrec"
 	"verifharness/internal/trace"
 )
 
@@ -36,11 +37,35 @@ func fail(f string, a ...any) {
 	os.Exit(3)
 }
 
+// must is for the harness's own trouble (I/O, encoding, set-up): exit 3, never a finding.
 func must(err error) {
 	if err != nil {
-		panic(err)
+		fail("%v", err)
 	}
 }
+
+// realErr is a failure of a call into thor code: an error it returned or a panic inside it.
+type realErr struct{ what, msg string }
+
+// guard runs one call into thor code. Errors and panics are returned, so that they can be logged as an Error event at
+// the point where they happened (the trace specification has no such event: the stream is rejected there). The crash
+// sentinel of the recording kv engine passes through.
+func guard(what string, f func() error) (re *realErr) {
+	defer func() {
+		if x := recover(); x != nil {
+			if _, ok := x.(kvrec.CrashSentinel); ok {
+				panic(x)
+			}
+			re = &realErr{what, fmt.Sprintf("panic: %v", x)}
+		}
+	}()
+	if err := f(); err != nil {
+		return &realErr{what, err.Error()}
+	}
+	return nil
+}
+
+func errorEv(re *realErr) trace.Ev { return trace.Ev{"e": "Error", "what": re.what, "err": re.msg} }
 
 type runStat struct {
 	Scen       string `json:"scen"`
